@@ -1,5 +1,6 @@
 import AgModel.Proofs.ParentReadyRun
 import AgModel.Proofs.PoolWiring
+import AgModel.Proofs.PoolNoPanic
 /-!
 # C07 — parent-ready (property theorems)
 
@@ -532,9 +533,13 @@ Model: `AgModel.Pool` (`Model/Pool.lean`: `add_vote`, `add_cert`, `add_valid_cer
   tracker received (`mark_notar_fallback` for notarization / notar-fallback certificates, `mark_skipped` for skip
   certificates, `handle_finalization` with each event of the finality tracker, `prune` to `first_unpruned_slot`);
 * **premise** `Consistent L` (decidable): `Finality.Safe (finOps L)` (C08's premise: parents in earlier slots, one
-  parent per block, at most one finalized block per slot, …), no skip certificate for a finalized slot, and the only
+  parent per block, at most one finalized block per slot, …), no skip certificate for the slot of a **directly**
+  finalized block (fast-finalization certificate, or finalization + notarization certificate), and the only
   finalized block of slot 0 is genesis (explicit since the D27 repair weakened `Finality.Safe`) — what
-  consensus safety (C01) gives for the certificates a correct node can ever hold.
+  consensus safety (C01) gives for the certificates a correct node can ever hold: **a theorem now**,
+  `Cluster.cluster_pools_consistent` (`Props/C10Cluster.lean`).  (The skip clause used to exclude every `Final` block,
+  also the implicitly finalized ancestors; safety does not give that — `Cluster.old_skip_premise_fails_on_valid_run` —
+  and it is not needed: the prune roots are slots of directly finalized blocks, `first_direct` / `roots_direct`.)
 -/
 namespace AgModel.Pool
 open AgModel
@@ -660,6 +665,15 @@ theorem pool_pr_never_panics (e : Epoch) (ops : List PoolOp) (hc : Consistent (p
   refine ⟨safeRun_prTrace hc, fun x hx => (by rw [hpr] at hx; cases hx), anns, hpr, ?_⟩
   exact ParentReady.announced_once (safeRun_prTrace hc) hpr
 
+/-- **`pool_never_panics`.**  A pool run with a consistent log whose votes name validator indices (signature validation)
+    emits no `Event.panic` at all: with C06 `pool_panic_only_from_trackers` (every `.panic` comes from the finality tracker,
+    the parent-ready tracker, the signer bound of `add_vote` or `add_block`'s assertions) and the two tracker theorems
+    (`Wired`, `fin_item_ok`, `pr_item_ok`) every one of these sites is unreachable — in particular `add_block`'s
+    `assert!(block_id.0 > parent_id.0)` (`Safe.link_lt` on the logged registration). -/
+theorem pool_never_panics (e : Epoch) (ops : List PoolOp) (hc : Consistent (poolLog { epoch := e } ops))
+    (hsig : ∀ v, PoolOp.vote v ∈ ops → v.signer < e.n) : Event.panic ∉ (poolRun { epoch := e } ops).2 :=
+  poolRun_no_panic e ops hc hsig
+
 /-- **No tracker panic, step by step.**  In a reachable pool with consistent log `L`, for every next log item `it`
     (a certificate passed to `add_valid_cert`, or a block registration) that keeps the log consistent: the finality
     operation it triggers does not panic, and none of the calls it makes to the parent-ready tracker does (the whole
@@ -701,7 +715,7 @@ example : Consistent (poolLog { epoch := demoEpoch } demoPoolOps) ∧
     ParentReady.parentsReady (poolRun { epoch := demoEpoch } demoPoolOps).1.pr 8 = [(5, 3)] ∧
     Event.panic ∉ (poolRun { epoch := demoEpoch } demoPoolOps).2 := by decide
 
-/-- **The premise "no skip certificate for a finalized slot" is necessary**: block (2,9) is fast-finalized (watermark
+/-- **The premise "no skip certificate for a directly finalized slot" is necessary**: block (2,9) is fast-finalized (watermark
     2, parent-ready root 2) although slot 2 is skip-certified; the finality tracker's own premise `Safe` holds and
     nothing panics.  The skip certificate of slot 3 then walks back only to the root: `parents_ready(4)` lacks (1,7)
     although the accepted marks connect it to slot 4 (`ready_iff` fails for the pool). -/
